@@ -56,7 +56,12 @@ func proveLemmaRegion(P *Program, name, dir string, timeout int, cross bool, reg
 					return false
 				}
 			}
-			return globMatch(target.Hide, n)
+			for _, pat := range strings.Split(target.Hide, "|") {
+				if globMatch(pat, n) {
+					return true
+				}
+			}
+			return false
 		}
 	}
 	st := &State{m: map[string]string{}}
